@@ -295,6 +295,10 @@ class SimTLSSocket(SimSocket):
         return self.send(data)
 
 
+class PortNotOpenError(IOError):
+    """What pyserial raises when a closed port is used."""
+
+
 class SimSerial:
     """
     pyserial-like port: read(n) blocks until n bytes have arrived or `timeout` elapsed and
@@ -316,8 +320,10 @@ class SimSerial:
         self.ledger = [] if log is None else log
         self.budget = _Budget(len(wire))
         self.short_reads = 0
+        self.discarded = 0  # bytes thrown away by reset_input_buffer()
 
     def _take(self, want: int, stop_at_lf: bool) -> bytes:
+        self._check_open()
         deadline = self.now + self._timeout
         end = self._pos
         while end < len(self._wire) and end - self._pos < want:
@@ -381,6 +387,84 @@ class SimSerial:
         while n < len(self._wire) and self._byte_time[n] <= self.now:
             n += 1
         return n - self._pos
+
+    # ---- the rest of what a pyserial port offers, with its real consequences: a library that calls one of
+    # ---- these on the application's port gets what the real port would do
+    port = name = "/dev/ttySIM0"
+    baudrate = 9600
+    bytesize, parity, stopbits = 8, "N", 1
+    is_open = True
+    out_waiting = 0
+
+    @property
+    def timeout(self):
+        return self._timeout
+
+    @timeout.setter
+    def timeout(self, value):
+        self.ledger.append(("set_timeout", self._pos, -1, 0))
+        self._timeout = float(1 << 20 if value is None else value)
+
+    def reset_input_buffer(self):
+        """Discard everything received and not yet read (what pyserial's method of that name does)."""
+        self._check_open()
+        n = self.in_waiting
+        self.ledger.append(("reset_input_buffer", self._pos, -1, n))
+        self.discarded += n
+        self._pos += n
+
+    flushInput = reset_input_buffer  # the deprecated alias pyserial still carries
+
+    def reset_output_buffer(self):
+        self._check_open()
+        self.ledger.append(("reset_output_buffer", self._pos, -1, 0))
+
+    flushOutput = reset_output_buffer
+
+    def flush(self):
+        self._check_open()
+        self.ledger.append(("flush", self._pos, -1, 0))
+
+    def write(self, data):
+        self._check_open()
+        self.ledger.append(("write", self._pos, -1, len(data)))
+        return len(data)
+
+    def cancel_read(self):
+        self.ledger.append(("cancel_read", self._pos, -1, 0))
+
+    def close(self):
+        self.ledger.append(("close", self._pos, -1, 0))
+        self.is_open = False
+
+    def isOpen(self):  # noqa: N802  pylint: disable=invalid-name
+        return self.is_open
+
+    def _check_open(self):
+        if not self.is_open:
+            raise PortNotOpenError("Attempting to use a port that is not open")
+
+    def readable(self):
+        return True
+
+    def writable(self):
+        return True
+
+    def seekable(self):
+        return False
+
+    def readinto(self, buf):
+        data = self.read(len(buf))
+        buf[: len(data)] = data
+        return len(data)
+
+    def readall(self):
+        out = bytearray()
+        while True:
+            data = self.read(4096)
+            if not data:
+                return bytes(out)
+            out += data
 
     @property
     def handed_out(self) -> int:
